@@ -18,6 +18,7 @@ var mutValues = []string{
 	"~", "null", "true", "1", "1.5", "[]", "{}", "[a]", "{a: b}", `""`, "''", "|", ">", "|-", ">+", "!!binary aGk=", "!!str 1",
 	"!!int x", "*a", "&a x", "'{{ $x }}'", `"{{ .X }}"`, "sum(", "1x", "0", "-1", "0x10", "2024-01-01", ".inf", "? a", "- a", "foo{bar}",
 	"__name__", `"\xff"`, `"\u0000"`, "a: b: c", "@", "`", "%", "!", "&", "*",
+	`" "`, `"\t"`, `' '`, `count_values(("x"), up)`, `label_join(up, ("foo"), "", "a")`, `label_replace(up, ("foo"), "x", "a", "(.*)")`, `sum by (("job")) (up)`,
 	`"a\n\nb"`, `"\n\n\n"`, `up{"foo(bar"=~"a"}`, `{"a.b"="c"}`, `up{job=~"a|b"} == 0`, `sum by ("a b") (up)`, `'{"up", job!~"[a"}'`, `count({__name__=~".+"})`,
 }
 
@@ -271,6 +272,26 @@ var mutOps = []mutOp{
 		}
 		return []byte(sb.String())
 	}},
+	// wrap one double-quoted string of an expr line in parentheses: sum("x") -> sum(("x"))  (PromQL keeps it as a ParenExpr)
+	{"parenString", lineOp(func(rng *rand.Rand, ls []string, i int) []string {
+		var cand []int
+		for k, l := range ls {
+			if strings.Contains(l, "expr") && strings.Count(l, `"`) >= 2 {
+				cand = append(cand, k)
+			}
+		}
+		if len(cand) == 0 {
+			return ls
+		}
+		k := cand[rng.Intn(len(cand))]
+		l := ls[k]
+		idx := allIndex(l, `"`)
+		p := rng.Intn(len(idx) / 2)
+		a, b := idx[2*p], idx[2*p+1]
+		out := append([]string{}, ls...)
+		out[k] = l[:a] + "(" + l[a:b+1] + ")" + l[b+1:]
+		return out
+	})},
 	{"blockScalar", lineOp(func(rng *rand.Rand, ls []string, i int) []string {
 		l := strings.TrimSuffix(ls[i], "\n")
 		p := strings.Index(l, ": ")
@@ -313,4 +334,31 @@ func Mutate(rng *rand.Rand, content []byte, n int) ([]byte, []string) {
 		ops = append(ops, op.name)
 	}
 	return content, ops
+}
+
+// SelfAnchor makes one value of the document an anchor that contains itself ("key: &self\n  - *self").
+// It is applied by the binary slice only: walking such a document may overflow the stack, which no in-process
+// harness can survive.
+func SelfAnchor(rng *rand.Rand, b []byte) []byte {
+	ls := splitKeep(b)
+	var cand []int
+	for k, l := range ls {
+		t := strings.TrimRight(l, "\r\n")
+		if strings.HasSuffix(t, ":") || strings.Contains(t, ": ") {
+			cand = append(cand, k)
+		}
+	}
+	if len(cand) == 0 {
+		return append([]byte("x: &self\n  - *self\n"), b...)
+	}
+	k := cand[rng.Intn(len(cand))]
+	l := strings.TrimRight(ls[k], "\r\n")
+	ind := len(l) - len(strings.TrimLeft(l, " -"))
+	key := l
+	if p := strings.Index(l, ": "); p >= 0 {
+		key = l[:p+1]
+	}
+	shape := []string{"- *self", "x: *self", "- - *self"}[rng.Intn(3)]
+	ls[k] = key + " &self\n" + strings.Repeat(" ", ind+2) + shape + "\n"
+	return []byte(strings.Join(ls, ""))
 }
